@@ -23,5 +23,6 @@ def run(tier, t0):
     pw = sym.pool_walkers(prog, 8)
     pw.obs = [o for o in pw.obs if o.file == 'core/Macros.cpp']
     pw.floor = 3
-    results = [sym.marker(prog), sym.save_restore(prog), sym.repeat(prog), pw, e1]
+    results = [sym.marker(prog), sym.save_restore(prog), sym.repeat(prog), pw, e1,
+               sym.find_exhaustive(prog, lambda f: f.file == 'core/Macros.cpp', 1), sym.unget_eof(prog)]
     return report.finish('C09', tier, results, EXPLANATION, [], common.TRUSTED, t0)
